@@ -112,6 +112,17 @@ class C10Monitor(X.Monitor):
         kw = self._args(rec, "objects")
         objs = rec["in_kwlists"].get("objects") if "objects" in rec["in_kwlists"] else rec["in_lists"][0]
         is_gt = kw["is_gt"]
+        # what the objects are is decided by where they come from, not by the flag the caller happens to pass:
+        # the estimates of this delivery are estimates, the objects of the frame handed in are ground truth
+        if objs:
+            est_ids = set(id(o) for o in (st.estimates or []))
+            gt_ids = set(id(o) for o in (st.gt_snapshot or []))
+            if all(id(o) in gt_ids for o in objs):
+                is_gt = True
+            elif all(id(o) in est_ids for o in objs):
+                is_gt = False
+            if is_gt != kw["is_gt"]:
+                ctx.probe("c10_role_differs_from_flag")
         params = V.filter_params(kw)
         out = rec["out_list"]
         ctx.probe("c10_filter_calls")
